@@ -101,11 +101,10 @@ def check_chain_rules(chk, F, types=TYPES, tag="chain"):
             sp = Spec(ty, absent_set("self", pa))
             key = "%s|%s|presence=%s" % (tag, ty, pres_tag(pa))
             try:
-                it = Interp(F, DOMK)
-                r = it.call_body(body, [sp.operand("self", pa)] + [Sc(Poly.var("F%d" % k)) for k in range(nf)])
                 want = sp.spec_lift()
-                compare_parts(chk, key, "chain rule of %s == Faa di Bruno truncated to its parts" % ty,
-                              body_loc(F, body), sp, r, want)
+                for sfx, r, _ in all_paths(F, body, lambda: [sp.operand("self", pa)] + [Sc(Poly.var("F%d" % k)) for k in range(nf)]):
+                    compare_parts(chk, key + sfx, "chain rule of %s == Faa di Bruno truncated to its parts" % ty,
+                                  body_loc(F, body), sp, r, want)
             except Unsupported as ex:
                 chk.undecide(key, "unsupported construct: %s" % ex, body_loc(F, body))
 
